@@ -198,14 +198,16 @@ func (g *gen) genError(typs []types.Type) error {
 	p.P("return func(%s) %s {", strings.Join(firstVarTypes, ", "), wrap(strings.Join(resultStrs[len(resultStrs)-1], ", ")))
 	p.In()
 	for i := range params {
-		p.P("%s, err%d := %s(%s)", strings.Join(vars[i+1], ", "), i, fs[i], strings.Join(vars[i], ", "))
+		// a stage (or the whole composition) may have no results besides the error
+		erri := fmt.Sprintf("err%d", i)
+		p.P("%s := %s(%s)", strings.Join(append(append([]string{}, vars[i+1]...), erri), ", "), fs[i], strings.Join(vars[i], ", "))
 		p.P("if err%d != nil {", i)
 		p.In()
-		p.P("return %s, err%d", strings.Join(zeros, ", "), i)
+		p.P("return %s", strings.Join(append(append([]string{}, zeros...), erri), ", "))
 		p.Out()
 		p.P("}")
 	}
-	p.P("return %s, nil", strings.Join(vars[len(vars)-1], ", "))
+	p.P("return %s", strings.Join(append(append([]string{}, vars[len(vars)-1]...), "nil"), ", "))
 	p.Out()
 	p.P("}")
 	p.Out()
